@@ -178,6 +178,24 @@ class RuntimeAssertionFeedback(AssertionFeedback):
             if self.report[TOOL_NAME]['exceptions']:
                 raise AssertionBreak(self)
 
+    def _handle_condition(self):
+        """ An operand that is an error, or a relation that cannot even be evaluated for the
+        given operands, means that the asserted relation does not hold: the assertion fails. """
+        actual_condition = self.condition
+
+        def guarded_condition(*args, **kwargs):
+            if any(getattr(arg, 'is_error', False) for arg in args):
+                return True
+            try:
+                return actual_condition(*args, **kwargs)
+            except Exception:
+                return True
+        self.condition = guarded_condition
+        try:
+            return super()._handle_condition()
+        finally:
+            del self.condition
+
     def get_sandbox_contexts(self, wrapped_values):
         """ Retrieve any sandbox contexts associated with these values. """
         contexts = []
